@@ -42,10 +42,10 @@ class C07(Prop):
                "ast.literal_eval of a QUOTED_STRING token as modelled by Mk.pyStrLit (escape decoding; \\N{...} not modelled)",
                "CPython re: leftmost alternative / backtracking order and \\b as modelled by Mk.matchFin (word table measured)"]
     partial = ["character-level parsing is proved for every layout (marker_parse_render_layout: any white-space runs of space/tab "
-               "wherever the tokenizer admits them, either quote style per literal, every VARIABLE spelling process_env_var accepts, "
-               "any amount of parentheses) of formulas whose literals contain no backslash/CR/LF/NUL/surrogate and not the chosen "
-               "delimiter; not covered by a theorem, only by the correspondence: a text ending in a newline (the END rule's '$'), "
-               "literals with backslash escapes, and what the parser does with texts that are not a layout of any formula (rejection)",
+               "wherever the tokenizer admits them, an optional final newline, either quote style per literal, every VARIABLE spelling "
+               "process_env_var accepts, any amount of parentheses) of formulas whose literals contain no backslash/CR/LF/NUL/surrogate "
+               "and not the chosen delimiter; not covered by a theorem, only by the correspondence: literals with backslash escapes, "
+               "and what the parser does with texts that are not a layout of any formula (rejection)",
                "comparisons of two variables or of two literals are outside the statement; the model mirrors what the code does "
                "with them (correspondence only), the refinement theorems assume one variable per comparison",
                "recursion depth: the model's fuel is linear in the input length; CPython's RecursionError on ~330 nested "
